@@ -346,7 +346,11 @@ func checkRaw(c RawCase, u *vf.Unit) *vf.Verdict {
 		u.Class("isolated")
 		return isolate("h3-raw-peer", c, u)
 	}
-	return runRaw(c, u)
+	v := runRaw(c, u)
+	if v == nil && u.WantSample() {
+		u.Sample(c)
+	}
+	return v
 }
 
 func init() {
@@ -886,11 +890,7 @@ func modelUni(c *RawCase) uniExpect {
 	case "ctrl-reserved":
 		return uniExpect{h3FrameUnexpected, "RFC 9114 7.2.8: a reserved (HTTP/2) frame type MUST be treated as a connection error H3_FRAME_UNEXPECTED", ctl}
 	case "ctrl-cancel-push":
-		g := "push-frame-ignored"
-		if toServer {
-			g = ctl
-		}
-		return uniExpect{h3IDError, "RFC 9114 7.2.3: CANCEL_PUSH for a push ID greater than currently allowed (no push was ever permitted / promised) MUST be treated as a connection error H3_ID_ERROR", g}
+		return uniExpect{h3IDError, "RFC 9114 7.2.3: CANCEL_PUSH for a push ID greater than currently allowed (no push was ever permitted / promised) MUST be treated as a connection error H3_ID_ERROR", "push-frame-ignored"}
 	case "ctrl-max-push-id":
 		return uniExpect{h3FrameUnexpected, "RFC 9114 7.2.7: a client MUST treat the receipt of a MAX_PUSH_ID frame as a connection error H3_FRAME_UNEXPECTED", "push-frame-ignored"}
 	case "goaway-bad-id":
